@@ -263,6 +263,8 @@ def run(rep):
     c08.e17(rep, src)
     c08.e18(rep, src)
     c08.e19(rep, src)
+    c08.e20(rep, src)
+    c08.e21(rep, src)
     rep.assume("the reader entry of a dialect is QueryToRelationTranslator::try_function (its override, else the trait default which special-cases log / ln / md5 and defers to sql/expr.rs)")
     rep.assume("sqlparser source in ~/.cargo/registry is the version pinned in /repo/Cargo.lock")
 
